@@ -967,7 +967,19 @@ func (w *Worker) callBuiltin(caller *frame, callpos token.Pos, fn *ssa.Builtin, 
 				x.Keys, x.Vals, x.index, x.n = nil, nil, map[string]int{}, 0
 			}
 		case []Value:
-			panic(engineError("clear of slice not supported"))
+			if len(x) > 0 {
+				sig, _ := fn.Type().(*types.Signature)
+				var et types.Type
+				if sig != nil && sig.Params().Len() > 0 {
+					if sl, ok := sig.Params().At(0).Type().Underlying().(*types.Slice); ok {
+						et = sl.Elem()
+					}
+				}
+				if et == nil {
+					panic(engineError("clear of slice: unknown element type"))
+				}
+				fillZero(x, et)
+			}
 		}
 		return nil
 	case "print", "println":
